@@ -318,7 +318,8 @@ class RDFWriter(object):
 
             # Ignore "id" and empty values, but make sure the content of "value"
             # is only accessed via its non deprecated property "values".
-            if k == "id" or not curr_val:
+            # A number like an uncertainty of 0 is not an empty value.
+            if k == "id" or (not curr_val and not isinstance(curr_val, (int, float))):
                 continue
 
             if k == "value":
